@@ -2,10 +2,10 @@ SETUP = "./setup.sh"
 HOOKS = dict(
     guard="cfg(kani) and cfg(nundb_verif)",
     enable="cargo kani sets --cfg kani by itself (harness modules); the native replay/sweep crate is built with RUSTFLAGS='--cfg nundb_verif' "
-           "(vk/replay_driver.py), which exposes http_ops::verif_process_commands, a public wrapper around the private process_commands; "
+           "(vk/replay_driver.py), which exposes http_ops::verif_process_commands and disk_ops::verif_remove_old_db_files, public wrappers around the private process_commands and remove_old_db_files; "
            "Verus units need no hook (functions are extracted from /repo/src on every run)",
     baseline_off_cmd="cd /repo && cargo test --workspace --no-fail-fast --offline",
-    source_commits=["9b2d413", "089481e", "f29fb54", "b91bd80", "e4b729e"],
+    source_commits=["9b2d413", "089481e", "f29fb54", "b91bd80", "e4b729e", "534e313"],
     add_only=True,
 )
 ENGINES = [
